@@ -137,7 +137,7 @@ func genLeaf(t *rapid.T) Node {
 			if rapid.Bool().Draw(t, "i64bound") {
 				return Node{K: "i64", I: rapid.SampledFrom(int64sExact).Draw(t, "i64")}
 			}
-			return Node{K: "i64", I: rapid.Int64Range(-(1 << 53), 1<<53).Draw(t, "i64")}
+			return Node{K: "i64", I: rapid.Int64Range(-(1<<53), 1<<53).Draw(t, "i64")}
 		}
 		if rapid.Bool().Draw(t, "i64bound") {
 			return Node{K: "i64", I: rapid.SampledFrom(int64s).Draw(t, "i64")}
